@@ -161,12 +161,16 @@ func execC03(r *simkit.Run) {
 				r.HarnessError("build needle: %v", err)
 				return
 			}
-			_, werr := st.WriteVolumeNeedle(VID, n, false)
+			unchanged, werr := st.WriteVolumeNeedle(VID, n, false)
 			if werr != nil {
 				r.Violate("live-write-failed", "w", "write key=%d on a healthy volume failed: %v", a.Key, werr)
 				return
 			}
-			model[a.Key] = BlobFromArgs(a, n, "")
+			if !unchanged {
+				// (an identical rewrite is answered "unchanged" and appends nothing; what that does to
+				// the metadata is C01's business, here the stored record simply stays)
+				model[a.Key] = BlobFromArgs(a, n, "")
+			}
 			r.Log("w key=%d len=%d", a.Key, len(a.Data))
 			r.Abs("w")
 			ops = append(ops, opRec{kind: "w", key: a.Key})
